@@ -56,6 +56,7 @@ type Link struct {
 	Items   []Item      `json:"items,omitempty"`
 	Action  bool        `json:"action,omitempty"`  // operator-less (SecAction)
 	Setvars [][2]string `json:"setvars,omitempty"` // hex key, hex value
+	Ctls    []Ctl       `json:"ctls,omitempty"`    // ctl:ruleRemoveTargetById / ByTag of an operator-less rule
 	Neg     bool        `json:"neg,omitempty"`
 	Op      string      `json:"op,omitempty"`
 	ArgHex  string      `json:"arg_hex,omitempty"`
@@ -63,7 +64,25 @@ type Link struct {
 	Multi   bool        `json:"multi,omitempty"`
 }
 
+// Ctl is one ctl:ruleRemoveTargetById=lo[-hi];VAR[:key|:/rx/] action; with Tag it is written as
+// ctl:ruleRemoveTargetByTag=Tag;... and IDs lists the rules that carry the tag (what it resolves to)
+type Ctl struct {
+	Lo  int    `json:"lo,omitempty"`
+	Hi  int    `json:"hi,omitempty"`
+	Tag string `json:"tag,omitempty"`
+	IDs []int  `json:"ids,omitempty"`
+	Var string `json:"var"`
+	Sel Sel    `json:"sel"`
+}
+
+// Removal is one argument of SecRuleRemoveById: a single id (Hi == 0) or a range
+type Removal struct {
+	Lo int `json:"lo"`
+	Hi int `json:"hi,omitempty"`
+}
+
 type Rule struct {
+	Tag   string `json:"tag,omitempty"`
 	ID    int    `json:"id"`
 	Phase int    `json:"phase"`
 	Links []Link `json:"links"`
@@ -93,6 +112,7 @@ type Case struct {
 	Kind       string    `json:"kind"` // tx | rx | op
 	Rules      []Rule    `json:"rules,omitempty"`
 	Req        *Request  `json:"request,omitempty"`
+	Removes    []Removal `json:"removes,omitempty"` // SecRuleRemoveById after the rules
 	SecLang    string    `json:"seclang,omitempty"` // informative
 	Observed   []ObsRule `json:"observed,omitempty"`
 	FindingKey string    `json:"finding_key,omitempty"`
@@ -259,9 +279,22 @@ func (l Link) coq() string {
 	}
 	kind := ""
 	if l.Action {
-		sv := make([]string, len(l.Setvars))
-		for i, kv := range l.Setvars {
-			sv[i] = "(" + vh.HxS(unhx(kv[0])) + ", " + vh.HxS(unhx(kv[1])) + ")"
+		var sv []string
+		for _, kv := range l.Setvars {
+			sv = append(sv, "ASetvar "+vh.HxS(unhx(kv[0]))+" "+vh.HxS(unhx(kv[1])))
+		}
+		for _, c := range l.Ctls {
+			if c.Tag != "" {
+				for _, id := range c.IDs {
+					sv = append(sv, fmt.Sprintf("ACtlRmTarget %s %s %s %s", vh.N(int64(id)), vh.N(int64(id)), varCoq[c.Var], c.Sel.coq()))
+				}
+				continue
+			}
+			hi := c.Hi
+			if hi == 0 {
+				hi = c.Lo
+			}
+			sv = append(sv, fmt.Sprintf("ACtlRmTarget %s %s %s %s", vh.N(int64(c.Lo)), vh.N(int64(hi)), varCoq[c.Var], c.Sel.coq()))
 		}
 		kind = "(LAction " + vh.List(sv) + ")"
 	} else {
@@ -290,7 +323,25 @@ func pairsCoq(ps [][2]string) string {
 	return vh.List(it)
 }
 
-func seclang(rules []Rule) string {
+func seclang(rules []Rule) string { return seclangR(rules, nil) }
+
+func seclangR(rules []Rule, rms []Removal) string {
+	out := seclangBody(rules)
+	if len(rms) > 0 {
+		var parts []string
+		for _, rm := range rms {
+			if rm.Hi == 0 {
+				parts = append(parts, fmt.Sprint(rm.Lo))
+			} else {
+				parts = append(parts, fmt.Sprintf("%d-%d", rm.Lo, rm.Hi))
+			}
+		}
+		out += "SecRuleRemoveById " + strings.Join(parts, " ") + "\n"
+	}
+	return out
+}
+
+func seclangBody(rules []Rule) string {
 	var b strings.Builder
 	b.WriteString("SecRuleEngine On\nSecRequestBodyAccess On\n")
 	for _, r := range rules {
@@ -298,6 +349,9 @@ func seclang(rules []Rule) string {
 			var acts []string
 			if li == 0 {
 				acts = append(acts, fmt.Sprintf("id:%d", r.ID), fmt.Sprintf("phase:%d", r.Phase), "pass", "nolog")
+				if r.Tag != "" {
+					acts = append(acts, "tag:"+r.Tag)
+				}
 			} else {
 				acts = append(acts, "nolog")
 			}
@@ -309,6 +363,15 @@ func seclang(rules []Rule) string {
 			}
 			for _, kv := range l.Setvars {
 				acts = append(acts, "setvar:tx."+unhx(kv[0])+"="+unhx(kv[1]))
+			}
+			for _, c := range l.Ctls {
+				if c.Tag != "" {
+					acts = append(acts, "ctl:ruleRemoveTargetByTag="+c.Tag+";"+c.Var+c.Sel.text())
+				} else if c.Hi != 0 && c.Hi != c.Lo {
+					acts = append(acts, fmt.Sprintf("ctl:ruleRemoveTargetById=%d-%d;%s%s", c.Lo, c.Hi, c.Var, c.Sel.text()))
+				} else {
+					acts = append(acts, fmt.Sprintf("ctl:ruleRemoveTargetById=%d;%s%s", c.Lo, c.Var, c.Sel.text()))
+				}
 			}
 			if li+1 < len(r.Links) {
 				acts = append(acts, "chain")
@@ -394,12 +457,16 @@ func (q *Request) coq() string {
 // ---------------------------------------------------------------------------------------
 
 func runImpl(rules []Rule, q *Request) (obs []ObsRule, readback map[string][][2]string, err error) {
+	return runImplR(rules, nil, q)
+}
+
+func runImplR(rules []Rule, rms []Removal, q *Request) (obs []ObsRule, readback map[string][][2]string, err error) {
 	defer func() {
 		if r := recover(); r != nil {
 			err = fmt.Errorf("panic: %v", r)
 		}
 	}()
-	waf, e := coraza.NewWAF(coraza.NewWAFConfig().WithDirectives(seclang(rules)))
+	waf, e := coraza.NewWAF(coraza.NewWAFConfig().WithDirectives(seclangR(rules, rms)))
 	if e != nil {
 		return nil, nil, e
 	}
@@ -863,6 +930,12 @@ func genSelectionRules(r *rand.Rand, q *Request) []Rule {
 			}
 			l.Items = append(l.Items, Item{Neg: true, Var: w, Sel: genSel(r, w, true, q)})
 		}
+		// regex-keyed *_NAMES targets with an operator that tells the name from the value
+		if strings.HasSuffix(v, "_NAMES") && l.Items[0].Sel.Kind == "rx" && !l.Items[0].Count && r.Intn(2) == 0 {
+			if ks := requestKeys(q, v); len(ks) > 0 {
+				l.Op, l.Neg, l.ArgHex = pick(r, []string{"streq", "contains", "beginsWith"}), false, hx(ks[r.Intn(len(ks))])
+			}
+		}
 		ph := 1 + r.Intn(2)
 		for _, it := range l.Items {
 			if strings.HasPrefix(it.Var, "ARGS_POST") || (it.Var == "ARGS" && r.Intn(2) == 0) || (it.Var == "ARGS_NAMES" && r.Intn(2) == 0) {
@@ -990,6 +1063,143 @@ func genMatchedRules(r *rand.Rand, q *Request) []Rule {
 	return rules
 }
 
+// ctl-focused rule sets: an operator-less rule executes ctl:ruleRemoveTargetById / ByTag with
+// regex / string / bare selectors; later rules (same and next phase, plain and chained, targets
+// on the same and on sibling variables) read requests whose keys the exclusion does and does NOT hit
+func genCtlRules(r *rand.Rand, q *Request) []Rule {
+	fams := [][]string{{"ARGS", "ARGS_GET", "ARGS_NAMES", "ARGS_GET_NAMES"}, {"REQUEST_HEADERS", "REQUEST_HEADERS_NAMES"}, {"REQUEST_COOKIES", "REQUEST_COOKIES_NAMES"}}
+	fam := fams[r.Intn(len(fams))]
+	nObs := 2 + r.Intn(3)
+	ctlAt := r.Intn(2) // the ctl rule comes first, or after the first observed rule (no effect on it)
+	var rules []Rule
+	id := 0
+	var obsIDs []int
+	mk := func() Rule {
+		id++
+		v := pick(r, fam)
+		l := Link{Op: "unconditionalMatch", Items: []Item{{Var: v, Count: r.Intn(7) == 0, Sel: genSel(r, v, false, q)}}}
+		if r.Intn(3) == 0 {
+			w := pick(r, fam)
+			l.Items = append(l.Items, Item{Var: w, Sel: genSel(r, w, false, q)})
+		}
+		if r.Intn(3) == 0 {
+			l.Items = append(l.Items, Item{Neg: true, Var: v, Sel: genSel(r, v, true, q)})
+		}
+		switch r.Intn(5) {
+		case 0:
+			l.Op, l.ArgHex = "contains", hx(pick(r, []string{"x", "a", "A", "b", "1"}))
+		case 1:
+			l.Op, l.ArgHex, l.Neg = "streq", hx("zzz"), true
+		}
+		ru := Rule{ID: id, Phase: 1 + r.Intn(2), Links: []Link{l}}
+		if r.Intn(4) == 0 { // chained: the child looks the exclusions up under the parent's id
+			w := pick(r, fam)
+			ru.Links = append(ru.Links, Link{Op: "unconditionalMatch", Items: []Item{{Var: w, Sel: genSel(r, w, false, q)}}})
+		}
+		if r.Intn(3) == 0 {
+			ru.Tag = pick(r, []string{"t1", "t2"})
+		}
+		obsIDs = append(obsIDs, id)
+		return ru
+	}
+	for i := 0; i < nObs; i++ {
+		if i == ctlAt {
+			id++
+			rules = append(rules, Rule{ID: id, Phase: 1, Links: []Link{{Action: true}}})
+		}
+		rules = append(rules, mk())
+	}
+	// fill the ctl actions now that the ids and tags are known
+	for ri := range rules {
+		if !rules[ri].Links[0].Action {
+			continue
+		}
+		n := 1 + r.Intn(2)
+		for k := 0; k < n; k++ {
+			v := pick(r, fam)
+			c := Ctl{Var: v}
+			switch r.Intn(10) {
+			case 0:
+				c.Sel = Sel{Kind: "all"}
+			case 1, 2, 3, 4:
+				c.Sel = Sel{Kind: "rx", Rx: genRx(r)}
+			default:
+				c.Sel = genSel(r, v, true, q)
+				if c.Sel.Kind == "all" {
+					c.Sel = Sel{Kind: "str", KeyHex: hx(pick(r, selKeyAlpha))}
+				}
+			}
+			switch r.Intn(4) {
+			case 0:
+				c.Tag = pick(r, []string{"t1", "t2"})
+				for _, ru := range rules {
+					if ru.Tag == c.Tag {
+						c.IDs = append(c.IDs, ru.ID)
+					}
+				}
+			case 1:
+				c.Lo, c.Hi = obsIDs[0], obsIDs[len(obsIDs)-1]
+			default:
+				c.Lo = obsIDs[r.Intn(len(obsIDs))]
+			}
+			rules[ri].Links[0].Ctls = append(rules[ri].Links[0].Ctls, c)
+		}
+		if r.Intn(3) == 0 {
+			rules[ri].Links[0].Setvars = [][2]string{{hx("a"), hx("x")}}
+		}
+	}
+	return rules
+}
+
+// removal-focused configurations: 3-6 rules that mostly fire (SecAction stages written to TX and read
+// back by later rules), then SecRuleRemoveById with single ids / several / ranges: the fired ids must
+// come in configuration order minus the removed rules
+func genRemovalRules(r *rand.Rand, q *Request) ([]Rule, []Removal) {
+	n := 3 + r.Intn(4)
+	ph := 1 + r.Intn(2)
+	var rules []Rule
+	id := 0
+	for i := 0; i < n; i++ {
+		id += 1 + r.Intn(2)
+		ru := Rule{ID: id, Phase: ph}
+		if r.Intn(5) == 0 {
+			ru.Phase = 3 - ph
+		}
+		switch r.Intn(4) {
+		case 0:
+			ru.Links = []Link{{Action: true, Setvars: [][2]string{{hx("stage"), hx(fmt.Sprint(i))}}}}
+		case 1:
+			ru.Links = []Link{{Op: "streq", ArgHex: hx(fmt.Sprint(r.Intn(n))), Neg: r.Intn(2) == 0, Items: []Item{{Var: "TX", Sel: Sel{Kind: "str", KeyHex: hx("stage")}}}}}
+		case 2:
+			ru.Links = []Link{{Op: "unconditionalMatch", Items: []Item{{Var: pick(r, []string{"REQUEST_METHOD", "REQUEST_URI", "TX"}), Sel: Sel{Kind: "all"}}}}}
+		default:
+			v := pick(r, keyedVars[:10])
+			ru.Links = []Link{{Op: "unconditionalMatch", Items: []Item{{Var: v, Sel: genSel(r, v, false, q)}}}}
+		}
+		rules = append(rules, ru)
+	}
+	var rms []Removal
+	k := 1 + r.Intn(2)
+	for i := 0; i < k; i++ {
+		switch r.Intn(5) {
+		case 0:
+			a, b := rules[r.Intn(n)].ID, rules[r.Intn(n)].ID
+			if a > b {
+				a, b = b, a
+			}
+			if a == b {
+				b = a + 1
+			}
+			rms = append(rms, Removal{Lo: a, Hi: b})
+		case 1:
+			rms = append(rms, Removal{Lo: 99}) // an id that does not exist
+		default:
+			rms = append(rms, Removal{Lo: rules[r.Intn(n-1)].ID}) // mostly not the last rule
+		}
+	}
+	return rules, rms
+}
+
 // every string a transformation of this request can be applied to first
 func requestStrings(q *Request) []string {
 	uri, query, hdrs, _ := q.wire()
@@ -1075,9 +1285,13 @@ func (rn *runner) addTx(rules []Rule, q *Request, findingKey string) {
 // addTxNamed: with rsName / rqName the rule set / request are written once per shard as prelude
 // definitions and the case refers to them by name (exhaustive scope: thousands of cases share them)
 func (rn *runner) addTxNamed(rules []Rule, q *Request, findingKey, rsName, rqName string) {
+	rn.addTxFull(rules, nil, q, findingKey, rsName, rqName)
+}
+
+func (rn *runner) addTxFull(rules []Rule, rms []Removal, q *Request, findingKey, rsName, rqName string) {
 	asciiGuard(rules, q)
-	c := Case{Kind: "tx", Rules: rules, Req: q, SecLang: seclang(rules), FindingKey: findingKey}
-	obs, rb, err := runImpl(rules, q)
+	c := Case{Kind: "tx", Rules: rules, Removes: rms, Req: q, SecLang: seclangR(rules, rms), FindingKey: findingKey}
+	obs, rb, err := runImplR(rules, rms, q)
 	rn.res.Evaluations++
 	if err != nil {
 		rn.fail("c01-harness-compile", "rule set did not compile or run: "+err.Error(), c)
@@ -1085,7 +1299,7 @@ func (rn *runner) addTxNamed(rules []Rule, q *Request, findingKey, rsName, rqNam
 	}
 	c.Observed = obs
 	// implementation-side oracle 1: the canonical observable does not depend on map iteration order
-	obs2, _, err2 := runImpl(rules, q)
+	obs2, _, err2 := runImplR(rules, rms, q)
 	rn.oracleEv++
 	if err2 != nil || fmt.Sprint(obs2) != fmt.Sprint(obs) {
 		rn.fail("c01-order-dependence", "two runs of the same rule set and request fired different rules / match data", c)
@@ -1129,6 +1343,18 @@ func (rn *runner) addTxNamed(rules []Rule, q *Request, findingKey, rsName, rqNam
 		rn.defs[rsName] = fmt.Sprintf("Definition %s : list rule := %s.", rsName, rt)
 		rt = rsName
 		use = append(use, rsName)
+	}
+	if len(rms) > 0 {
+		parts := make([]string, len(rms))
+		for i, rm := range rms {
+			if rm.Hi == 0 {
+				parts[i] = "RmId " + vh.N(int64(rm.Lo))
+			} else {
+				parts[i] = fmt.Sprintf("RmRange %s %s", vh.N(int64(rm.Lo)), vh.N(int64(rm.Hi)))
+			}
+		}
+		rn.push(fmt.Sprintf("CaseR %s %s %s %s", qt, rt, vh.List(parts), obsCoq(obs)), c, use)
+		return
 	}
 	rn.push(fmt.Sprintf("Case %s %s %s", qt, rt, obsCoq(obs)), c, use)
 }
@@ -1240,7 +1466,7 @@ func (rn *runner) runDoc(doc json.RawMessage) {
 		rn.addOp(c.Op, unhx(c.ArgHex), unhx(c.ValHex))
 	default:
 		if c.Req != nil && len(c.Rules) > 0 {
-			rn.addTx(c.Rules, c.Req, c.FindingKey)
+			rn.addTxFull(c.Rules, c.Removes, c.Req, c.FindingKey, "", "")
 		}
 	}
 }
@@ -1305,14 +1531,14 @@ func Run(cfg vh.Config) (*vh.Result, error) {
 					continue
 				}
 				for _, v := range opVals {
-					if cfg.Thorough() || rng.Intn(3) == 0 {
+					if cfg.Thorough() || rng.Intn(5) == 0 {
 						rn.addOp(o, a, v)
 					}
 				}
 			}
 		}
 
-		n := cfg.Pick(700, 9000)
+		n := cfg.Pick(450, 8000)
 		for i := 0; i < n; i++ {
 			q := genRequest(rng)
 			rn.addTx(genRules(rng, q), q, "")
@@ -1327,6 +1553,17 @@ func Run(cfg vh.Config) (*vh.Result, error) {
 			rn.addTx(genMatchedRules(rng, q), q, "")
 			res.InputDistribution["matched_var_focused"]++
 		}
+		for i := 0; i < cfg.Pick(250, 2500); i++ {
+			q := genRequest(rng)
+			rn.addTx(genCtlRules(rng, q), q, "")
+			res.InputDistribution["ctl_target_removal_focused"]++
+		}
+		for i := 0; i < cfg.Pick(200, 2000); i++ {
+			q := genRequest(rng)
+			rules, rms := genRemovalRules(rng, q)
+			rn.addTxFull(rules, rms, q, "", "", "")
+			res.InputDistribution["rule_removal_focused"]++
+		}
 		if cfg.Thorough() {
 			rn.exhaustive()
 			res.Exhaustive = true
@@ -1339,7 +1576,7 @@ func Run(cfg vh.Config) (*vh.Result, error) {
 	res.OracleEvaluations = rn.oracleEv
 	res.DistinctNontrivial = rn.nontriv
 
-	per := 1000
+	per := 600
 	for i, k := 0, 0; i < len(rn.terms); i, k = i+per, k+1 {
 		j := i + per
 		if j > len(rn.terms) {
